@@ -121,7 +121,7 @@ func newAllowList(k string, raw any, handleKey func(key string, value any) (bool
 			return nil, fmt.Errorf("config `%s` has invalid CIDR: %s. %w", k, rawCIDR, err)
 		}
 
-		ipNet = netip.PrefixFrom(ipNet.Addr().Unmap(), ipNet.Bits())
+		ipNet = unmapPrefix(ipNet)
 
 		tree.Insert(ipNet, value)
 
@@ -230,7 +230,7 @@ func getRemoteAllowRanges(c *config.C, k string) (*bart.Table[*AllowList], error
 			return nil, fmt.Errorf("config `%s` has invalid CIDR: %s. %w", k, rawCIDR, err)
 		}
 
-		remoteAllowRanges.Insert(netip.PrefixFrom(ipNet.Addr().Unmap(), ipNet.Bits()), allowList)
+		remoteAllowRanges.Insert(unmapPrefix(ipNet), allowList)
 	}
 
 	return remoteAllowRanges, nil
@@ -303,4 +303,13 @@ func (al *RemoteAllowList) getInsideAllowList(vpnAddr netip.Addr) *AllowList {
 		}
 	}
 	return nil
+}
+
+// unmapPrefix turns an IPv4-mapped prefix ::ffff:a.b.c.d/96+n into a.b.c.d/n. Shorter prefixes also cover plain
+// IPv6 space and are left alone.
+func unmapPrefix(p netip.Prefix) netip.Prefix {
+	if p.Addr().Is4In6() && p.Bits() >= 96 {
+		return netip.PrefixFrom(p.Addr().Unmap(), p.Bits()-96)
+	}
+	return p
 }
